@@ -361,6 +361,13 @@ def match_known(prop, desc):
 
 # --------------------------------------------------------------------------- evidence
 def write_evidence(prop, tier, seed, level, coverage, wall, violations, assumptions):
+    if REPO != '/repo':
+        # self-test run against a scratch copy: never touch the evidence of the real tree
+        d = os.path.join(VERIF, 'work', 'evidence-scratch')
+        os.makedirs(d, exist_ok=True)
+        with open(os.path.join(d, '%s-%d.json' % (prop, os.getpid())), 'w') as f:
+            json.dump(dict(property_id=prop, tier=tier, repo=REPO, violations=violations, coverage=coverage), f)
+        return
     os.makedirs(os.path.join(VERIF, 'evidence'), exist_ok=True)
     ev = dict(property_id=prop, tier=tier, seed=seed, level=level, coverage=coverage,
               assumptions=assumptions, wall_s=round(wall, 2), violations=violations)
